@@ -5,7 +5,8 @@ import cmapgen
 import sfnt
 
 GEN_MODULES = []
-ASSUMPTIONS = ["agreement of the two lookup paths and equality with the OpenType reference are required for shipped and well-formed synthesised tables; for mutated (possibly unsorted/overlapping) tables only absence of out-of-bounds accesses and model = implementation",
+EXTRA_PROPS = ["GrVerif.Props.C13Eq"]
+ASSUMPTIONS = ["agreement of the two lookup paths is a theorem (cached_lookup_is_direct_lookup) for every table whose subtables' ranges are sorted and disjoint; harness and model each evaluate that hypothesis (sorted=) on every table, and the implementation's two paths must agree on every table for which it holds - shipped, synthesised or mutated; equality with the OpenType reference is required for well-formed synthesised tables; for mutated tables with unsorted/overlapping ranges only absence of out-of-bounds accesses and model = implementation",
                "well-formed synthesised tables: format-4 segments sorted, disjoint, ending with 0xFFFF; format-12 groups sorted, disjoint",
                "the Silf pseudo-glyph fallback (gr_face_is_char_supported) is not part of this check: Face::cmap() is queried directly"]
 TRUSTED = ["hand-written model GrVerif/Model/Cmap.lean (tied by exhaustive comparison over all 0x110000 code points per table)",
@@ -63,7 +64,30 @@ def gen_wf(r, consistent=True):
 
 def mutate(r, t):
     b = bytearray(t)
-    k = r.randrange(6)
+    k = r.randrange(9)
+    if k >= 6 and len(b) > 30:
+        # the range arrays of the first subtable: an end or start code moved onto / next to / past its neighbour (ranges that touch, overlap,
+        # are empty or out of order), or two entries swapped
+        o = struct.unpack(">I", b[8:12])[0]
+        if o + 16 < len(b) and struct.unpack(">H", b[o:o + 2])[0] == 4:
+            n = struct.unpack(">H", b[o + 6:o + 8])[0] // 2
+            if n >= 2 and o + 16 + 4 * n <= len(b):
+                i = r.randrange(n - 1)
+                e_at = lambda j: o + 14 + 2 * j
+                s_at = lambda j: o + 16 + 2 * n + 2 * j
+                if k == 6:
+                    x, y = r.choice([(e_at(i), s_at(i + 1)), (s_at(i + 1), e_at(i)), (s_at(i), e_at(i)), (e_at(i), s_at(i))])
+                    v = (struct.unpack(">H", b[y:y + 2])[0] + r.choice([-1, 0, 1])) & 0xffff
+                    b[x:x + 2] = struct.pack(">H", v)
+                elif k == 7:
+                    x, y = r.choice([(e_at(i), e_at(i + 1)), (s_at(i), s_at(i + 1))])
+                    b[x:x + 2], b[y:y + 2] = b[y:y + 2], b[x:x + 2]
+                else:
+                    x = r.choice([e_at(i), s_at(i)])
+                    v = (struct.unpack(">H", b[x:x + 2])[0] + r.choice([-1, 1, 2, -2, 0x100])) & 0xffff
+                    b[x:x + 2] = struct.pack(">H", v)
+        return bytes(b)
+    k = k % 6
     if k == 0:
         b = b[: r.randrange(0, len(b))]
     elif k == 1 and len(b) > 20:
@@ -113,8 +137,10 @@ def run(ctx):
         f = dict(x.split("=") for x in out.split())
         if "fault" in (f.get("d"), f.get("c")):
             return False, "out-of-bounds access in cmap parsing or lookup"
-        if kind != "mutated" and f.get("d") not in ("noface",) and f.get("c") not in ("noface",) and f.get("diff") != "none":
-            return False, "direct and cached lookup disagree at U+%s" % f.get("diff").upper()
+        if (kind != "mutated" or f.get("sorted") == "1") and f.get("d") not in ("noface",) and f.get("c") not in ("noface",) and f.get("diff") != "none":
+            return False, "direct and cached lookup disagree at U+%s%s" % (f.get("diff").upper(), " on a table with sorted, disjoint ranges (the hypothesis of cached_lookup_is_direct_lookup)" if f.get("sorted") == "1" else "")
+        if kind != "mutated" and f.get("d", "").isdigit() and f.get("sorted") != "1":
+            return False, "a shipped or well-formed synthesised table does not meet the hypothesis of cached_lookup_is_direct_lookup (sorted=%s): the theorem would say nothing about it" % f.get("sorted")
         if kind.startswith("wf"):
             want = str(cmapgen.digest_of(cmapgen.ref_pairs(segs, groups)))
             if f.get("d") != want:
@@ -129,7 +155,7 @@ def run(ctx):
         lib.correspond(ctx, res, "h_cmap", "cmap", heavy, holds, exe_args=[BASE], per_chunk=1, line_timeout=1500,
                        rule="cmap: the largest shipped cmap (thousands of format-12 groups), all 0x110000 code points by both lookup paths")
         res.evaluations += 0x110000 * len(heavy) - len(heavy)
-    lib.correspond(ctx, res, "h_cmap", "cmap", lines, holds, classify=lambda l, o: "%s -> %s" % (info[l][0], " ".join(("d=ok" if x[2:].isdigit() else x) if x.startswith("d=") else ("c=ok" if x[2:].isdigit() else x) if x.startswith("c=") else ("diff" if x != "diff=none" else "nodiff") for x in o.split())),
+    lib.correspond(ctx, res, "h_cmap", "cmap", lines, holds, classify=lambda l, o: "%s -> %s" % (info[l][0], " ".join(("d=ok" if x[2:].isdigit() else x) if x.startswith("d=") else ("c=ok" if x[2:].isdigit() else x) if x.startswith("c=") else x if x.startswith("sorted=") else ("diff" if x != "diff=none" else "nodiff") for x in o.split())),
                    exe_args=[BASE], per_chunk=8,
                    rule="cmap: shipped fonts' cmap tables; synthesised format-4 (1..60 segments, idDelta incl. wrapping, idRangeOffset arrays with zero entries, adjacent/one-apart boundaries, block-boundary code points) with or without a format-12 subtable (consistent with the BMP or free); mutated tables. Every line compares all 0x110000 code points by both lookup paths")
     res.evaluations += 0x110000 * len(lines) - len(lines)
@@ -141,4 +167,4 @@ def matches_known(k, f):
 
 
 def replay(ctx, obj):
-    return lib.replay_lines(ctx, obj, {"cmap": lambda l, o: ((False, "fault/diff") if ("fault" in o or o.startswith("CRASH") or not o.endswith("diff=none")) else (None, ""))})
+    return lib.replay_lines(ctx, obj, {"cmap": lambda l, o: ((False, "fault/diff") if ("fault" in o or o.startswith("CRASH") or " diff=none" not in o) else (None, ""))})
